@@ -42,7 +42,7 @@ def main():
         meta['confirmed'] = bool(rc0 == 0 and rc1 != 0 and passed)
         results = {}
         for c in checks:
-            for tier in ('quick', 'thorough'):
+            for tier in os.environ.get('SEEDCHECK_TIERS', 'quick,thorough').split(','):
                 t = time.time()
                 rc, o = sh('./check %s --tier %s' % (c, tier), cwd='/verif', env=dict(os.environ, PY4HW_ROOT=wt, VERIF_EVIDENCE_DIR='/tmp/seedcheck-evidence'), timeout=3600)
                 lines = [l for l in o.splitlines() if l.startswith(('VIOLATION', 'INCONCLUSIVE', c + ' '))]
